@@ -11,7 +11,7 @@ from .build import Env, UserErr, enc_val, py_val
 common.use_repo()
 
 from hypergraph import AsyncRunner, SyncRunner  # noqa: E402
-from hypergraph.events import EventProcessor  # noqa: E402
+from hypergraph.events import AsyncEventProcessor, EventProcessor  # noqa: E402
 from hypergraph.exceptions import InfiniteLoopError, MissingInputError  # noqa: E402
 
 
@@ -47,6 +47,30 @@ class Recorder(EventProcessor):
     def shutdown(self) -> None:
         self.shutdowns += 1
         self.events.append("shutdown")
+
+
+class YieldingRecorder(AsyncEventProcessor):
+    """Healthy async processor whose delivery really suspends (as one that does I/O would): other tasks run during every delivery."""
+
+    def __init__(self) -> None:
+        self.events: list[Any] = []
+        self.shutdowns = 0
+
+    def on_event(self, event: Any) -> None:
+        self.events.append(event)
+
+    async def on_event_async(self, event: Any) -> None:
+        await asyncio.sleep(0)
+        self.events.append(event)
+        await asyncio.sleep(0)
+
+    def shutdown(self) -> None:
+        self.shutdowns += 1
+        self.events.append("shutdown")
+
+    async def shutdown_async(self) -> None:
+        await asyncio.sleep(0)
+        self.shutdown()
 
 
 def canon_event(ev: Any) -> dict:
@@ -120,8 +144,12 @@ def run_case(
     cache: Any = None,
     ctl: Any = None,
     late_renames: bool = False,
+    yielding_recorder: bool = False,
+    prelude: Any = None,
 ) -> dict:
-    """Build the program with real hypergraph objects, run it, return the canonical observation."""
+    """Build the program with real hypergraph objects, run it, return the canonical observation.
+
+    `prelude` (async runner only): a zero-argument coroutine function awaited in the SAME task just before the run (its outcome is ignored)."""
     cfg = cfg or {}
     env = env or Env()
     env.late_renames = env.late_renames or late_renames
@@ -147,7 +175,7 @@ def run_case(
         kwargs["max_iterations"] = cfg["maxIter"]
     if entrypoint is not None:
         kwargs["entrypoint"] = entrypoint
-    rec = Recorder() if record_events else None
+    rec = (YieldingRecorder() if yielding_recorder and runner == "async" else Recorder()) if record_events else None
     procs = list(processors or [])
     if rec is not None:
         procs.append(rec)
@@ -168,12 +196,12 @@ def run_case(
 
                     env.park = ctl.park
                     try:
-                        result = sched.run_controlled(lambda: AsyncRunner(cache=cache).run(g, vals, **kwargs), ctl)
+                        result = sched.run_controlled(lambda: _after(prelude, lambda: AsyncRunner(cache=cache).run(g, vals, **kwargs)), ctl)
                     finally:
                         env.park = None
                     coro = None
                 else:
-                    coro = AsyncRunner(cache=cache).run(g, vals, **kwargs)
+                    coro = _after(prelude, lambda: AsyncRunner(cache=cache).run(g, vals, **kwargs))
                 if coro is None:
                     pass
                 elif loop_factory is not None:
@@ -193,6 +221,30 @@ def run_case(
         obs["events"] = [canon_event(e) for e in rec.events]
         obs["shutdowns"] = rec.shutdowns
     return obs
+
+
+async def _after(prelude: Any, main: Any) -> Any:
+    if prelude is not None:
+        try:
+            await prelude()
+        except Exception:  # noqa: BLE001 - the earlier run's outcome is irrelevant
+            pass
+    return await main()
+
+
+def prior_run(kind: str, max_concurrency: int) -> Any:
+    """An earlier top-level async run in the same task that ends abnormally: a node fails (raise / continue) or an interrupt pauses."""
+    env = Env()
+    nodes = [{"name": "pa", "kind": "fn", "params": [["px", None]], "dataOuts": ["pv"], "body": {"b": "tag", "t": "pa"}}]
+    if kind == "pause":
+        nodes.append({"name": "pask", "kind": "interrupt", "params": [["pv", None]], "dataOuts": ["pans"], "body": {"b": "handler", "k": None}})
+    else:
+        nodes.append({"name": "pb", "kind": "fn", "params": [["pv", None]], "dataOuts": ["pw"], "body": {"b": "fail", "t": "E_prior"}})
+    g = build.build_program([{"name": "prior", "nodes": nodes, "bound": []}], env, async_bodies=False)[-1]
+    kw: dict[str, Any] = {"max_concurrency": max_concurrency}
+    if kind == "fail-continue":
+        kw["error_handling"] = "continue"
+    return lambda: AsyncRunner().run(g, {"px": 1}, **kw)
 
 
 # ---------------------------------------------------------------- model side helpers
@@ -253,6 +305,8 @@ def map_case(
     ctl: Any = None,
     record_events: bool = False,
     env: Env | None = None,
+    yielding_recorder: bool = False,
+    prelude: Any = None,
 ) -> dict:
     """runner.map(...) on the real implementation; canonical observation."""
     cfg = cfg or {}
@@ -268,7 +322,7 @@ def map_case(
         kwargs["select"] = cfg["select"]
     if "onMissing" in cfg:
         kwargs["on_missing"] = cfg["onMissing"]
-    rec = Recorder() if record_events else None
+    rec = (YieldingRecorder() if yielding_recorder and runner == "async" else Recorder()) if record_events else None
     if rec is not None:
         kwargs["event_processors"] = [rec]
     obs: dict[str, Any] = {"status": "ok"}
@@ -285,11 +339,11 @@ def map_case(
 
                     env.park = ctl.park
                     try:
-                        results = sched.run_controlled(lambda: AsyncRunner().map(g, vals, **kwargs), ctl)
+                        results = sched.run_controlled(lambda: _after(prelude, lambda: AsyncRunner().map(g, vals, **kwargs)), ctl)
                     finally:
                         env.park = None
                 else:
-                    results = asyncio.run(AsyncRunner().map(g, vals, **kwargs))
+                    results = asyncio.run(_after(prelude, lambda: AsyncRunner().map(g, vals, **kwargs)))
             obs["results"] = [canon_result(r, env) for r in results]
             obs["raised"] = None
         except Exception as e:
